@@ -94,7 +94,31 @@ def ref_tokens(oid, formats):
             out.append('weak')
         if oid % 3 == 2:
             out.append('bare')
+        # cross-database forms (multi-database reference with / without class, weak reference into another database)
+        if oid % 4 == 3:
+            out.append('xdb-m')
+        if oid % 4 == 2:
+            out.append('xdb-n')
+        if oid % 5 == 1:
+            out.append('xdb-w')
     return out
+
+
+def _pid_of(ob):
+    from . import model_classes
+    if isinstance(ob, Ref):
+        if ob.kind == 'weak':
+            return ['w', (p64(ob.oid),)]
+        if ob.kind == 'bare':
+            return p64(ob.oid)
+        if ob.kind == 'xdb-m':
+            return ['m', ('other', p64(ob.oid), model_classes.VObj)]
+        if ob.kind == 'xdb-n':
+            return ['n', ('other', p64(ob.oid))]
+        if ob.kind == 'xdb-w':
+            return ['w', (p64(ob.oid), 'other')]
+        return (p64(ob.oid), model_classes.VObj)     # ordinary reference format: (oid, class)
+    return None
 
 
 def make_record(kind, v, refs, pad=0, formats=False):
@@ -108,14 +132,7 @@ def make_record(kind, v, refs, pad=0, formats=False):
     p = zpickle.Pickler(f, 3)
     from . import model_classes
 
-    def pid2(ob):
-        if isinstance(ob, Ref):
-            if ob.kind == 'weak':
-                return ['w', (p64(ob.oid),)]
-            if ob.kind == 'bare':
-                return p64(ob.oid)
-            return (p64(ob.oid), model_classes.VObj)     # ordinary reference format: (oid, class)
-        return None
+    pid2 = _pid_of
     p.persistent_id = pid2
     state = {'v': val_to_py(v), 'refs': [Ref(o, k) for o in sorted(refs) for k in ref_tokens(o, formats)]}
     if pad:
@@ -131,14 +148,7 @@ def _record_with_newargs(v, refs, pad, formats):
     f = io.BytesIO()
     p = zpickle.Pickler(f, 3)
 
-    def pid2(ob):
-        if isinstance(ob, Ref):
-            if ob.kind == 'weak':
-                return ['w', (p64(ob.oid),)]
-            if ob.kind == 'bare':
-                return p64(ob.oid)
-            return (p64(ob.oid), model_classes.VObj)
-        return None
+    pid2 = _pid_of
     p.persistent_id = pid2
     value = val_to_py(v)
     tag = model_classes.Tag(repr(value))        # the very same object appears in the class part and in the state
@@ -161,11 +171,11 @@ def ref_oid(pid):
             return u64(_b(pid[0])), 'weak'
         tag, args = pid
         if tag == 'w':
-            return u64(_b(args[0])), 'weak'
+            return u64(_b(args[0])), ('weak' if len(args) == 1 else 'xdb-w')
         if tag == 'n':
-            return u64(_b(args[1])), 'xdb'
+            return u64(_b(args[1])), 'xdb-n'
         if tag == 'm':
-            return u64(_b(args[1])), 'xdb'
+            return u64(_b(args[1])), 'xdb-m'
     raise ValueError('unknown reference format %r' % (pid,))
 
 
